@@ -91,6 +91,10 @@ pub struct Cfg {
     pub actors: Vec<ActorSpec>,
     /// Whether executor wallet `i` (i ≥ 1) is granted its store role by the fixture.
     pub wallet_roles: Vec<bool>,
+    /// C19 byzantine twins: every landed privileged timelock transaction is re-run on a fork of the pre-state,
+    /// re-signed by an address without any role and by an address holding every other role.
+    #[serde(default)]
+    pub twins: bool,
 }
 
 #[derive(Clone, Copy, Debug, PartialEq, Eq, Serialize, Deserialize)]
@@ -195,7 +199,6 @@ pub enum ClockStep {
     ToEta { slot: u8, off: i32 },
     JumpHours(u32),
     Extreme,
-    Regress(u16),
 }
 
 #[derive(Clone, Debug, PartialEq, Eq, Serialize, Deserialize)]
@@ -217,6 +220,8 @@ pub enum Step {
     UpdateRestart { by: u8 },
     /// An actor abandons the protocol of this buffer (recorded only).
     Crash { slot: u8 },
+    /// Timelock bypass `set_expected_price_provider` for the fixture token (needs `__TLD_MARKET_KEEPER`).
+    SetProvider { by: u8, provider: u8 },
 }
 
 /// Who is who in a generated cast (indices into `Cfg::actors`).
@@ -635,8 +640,8 @@ impl Gen<'_> {
                 70..=79 => {
                     if self.faults {
                         let c = match self.r.below(10) {
-                            0..=4 => ClockStep::Regress(self.r.range(1, 600) as u16),
-                            5..=8 => ClockStep::JumpHours(self.r.range(1, 24 * 400) as u32),
+                            0..=3 => ClockStep::Advance(0),
+                            4..=8 => ClockStep::JumpHours(self.r.range(1, 24 * 400) as u32),
                             _ => ClockStep::Extreme,
                         };
                         s.push(Step::Clock(c));
@@ -724,19 +729,24 @@ impl Gen<'_> {
             }
             85..=89 => Step::Clock(ClockStep::ToEta { slot, off: self.r.range_i64(-3, 3) as i32 }),
             90..=93 => Step::StoreAccept { by: if self.r.chance(2, 3) { self.cast.human } else { self.anyone() } },
-            94..=96 => Step::StoreTransfer { by: self.cast.human, to: self.r.below(3) as u8 },
+            94..=95 => Step::StoreTransfer { by: self.cast.human, to: self.r.below(3) as u8 },
+            96..=98 => {
+                let by = if self.r.chance(3, 4) { *self.r.pick(&self.cast.holders(3)) } else { self.anyone() };
+                Step::SetProvider { by, provider: self.r.below(5) as u8 }
+            }
             _ => Step::InitExecutor { by: self.anyone(), exec: self.r.below(4) as u8 },
         }
     }
 }
 
-pub fn generate(seed: u64, run: u64, tier: Tier) -> (Cfg, Vec<Step>) {
+pub fn generate(seed: u64, run: u64, tier: Tier, focus: &str) -> (Cfg, Vec<Step>) {
     let mut rc = Rng::derive(seed, run, "cfg");
     let faults = run % 2 == 1;
     let (actors, cast) = gen_cast(&mut rc);
     let tick = *rc.weighted(&[(25, 0u32), (35, 1), (15, 2), (15, 13), (10, 400)]);
     let wallet_roles = (0..4).map(|_| rc.chance(14, 15)).collect();
-    let cfg = Cfg { faults, tick, start_ts: 1_700_000_000 + rc.range(0, 1_000_000) as i64, actors, wallet_roles };
+    let twins = focus == "C19" || run % 12 == 5;
+    let cfg = Cfg { faults, tick, start_ts: 1_700_000_000 + rc.range(0, 1_000_000) as i64, actors, wallet_roles, twins };
     let init_delay = *rc.weighted(&[(15, 0u32), (10, 1), (20, 7), (20, 60), (20, 3600), (10, 86_400), (5, 30 * 86_400)]);
     let init_delay = if init_delay == 7 { rc.range(2, 10) as u32 } else { init_delay };
     let handback = rc.chance(35, 100);
@@ -912,6 +922,11 @@ pub fn simplify_cfg(cfg: &Cfg) -> Vec<Cfg> {
     if cfg.faults {
         let mut c = cfg.clone();
         c.faults = false;
+        out.push(c);
+    }
+    if cfg.twins {
+        let mut c = cfg.clone();
+        c.twins = false;
         out.push(c);
     }
     out
